@@ -102,7 +102,7 @@ _TYPES: dict[str, tuple[pa.DataType, list[Any]]] = {
     "dec": (pa.decimal128(10, 2), [None]),
     "list_i64": (pa.list_(pa.int64()), [[], [1, None], None]),
     "struct": (pa.struct([("a", pa.int64()), ("b", pa.utf8())]), [{"a": 1, "b": "x"}, None]),
-    "dict_utf8": (pa.dictionary(pa.int16(), pa.utf8()), ["RED", "GREEN", "PURPLE", None]),
+    "dict_utf8": (pa.dictionary(pa.int16(), pa.utf8()), ["RED", "PURPLE", "GREEN", "red", "", None]),
     "map": (pa.map_(pa.utf8(), pa.int64()), [[("k", 1)], [], None]),
 }
 _NAMES = ["nonce", "tag", "mode", "logs", "c", "init", "x", "", "résumé", "vgi_rpc.method", "ctx", "self"]
@@ -111,8 +111,8 @@ _NAMES = ["nonce", "tag", "mode", "logs", "c", "init", "x", "", "résumé", "vgi
 
 # NB: st.one_of() gives each branch equal weight (and de-duplicates), so weights go through a uniform index draw.
 _method = st.sampled_from(range(10)).flatmap(
-    lambda i: st.sampled_from(["probe", "probe", "unary", "unary", "enumy", "enumy", "prod_h", "exch_h", "__describe__",
-                               "__transport_options__"])
+    lambda i: st.sampled_from(["probe", "probe", "unary", "unary", "enumy", "enumy", "enumy", "prod_h", "exch_h",
+                               "__describe__", "__transport_options__"])
     if i < 6
     else st.sampled_from(["no_such_method", "", "Probe", "probe ", "prod_hh", "<absent>", "<nonutf8>"])
     if i < 8
@@ -622,5 +622,5 @@ def run_bytes(case: dict[str, Any]) -> Outcome:
 
 
 def main(chk: Check) -> None:
-    chk.explore("wellframed", wellframed_cases, run_wellframed, quick=1600, thorough=40000)
+    chk.explore("wellframed", wellframed_cases, run_wellframed, quick=2000, thorough=40000)
     chk.explore("bytes", bytes_cases, run_bytes, quick=400, thorough=8000)
